@@ -69,10 +69,21 @@ class CState:
         self.pc.append(f)
 
 
+def _is_assert(n):
+    """the left operand of the comma in CPython's cast macros: ``(assert(PyList_Check(op)), (PyListObject*)(op))``"""
+    if n.get('kind') in ('UnaryExprOrTypeTraitExpr', 'StmtExpr'):
+        return True
+    return any(_is_assert(c) for c in n.get('inner', []))
+
+
 def strip(n):
-    while n.get('kind') in ('ImplicitCastExpr', 'ParenExpr', 'CStyleCastExpr', 'ConstantExpr'):
-        n = n['inner'][0]
-    return n
+    while True:
+        if n.get('kind') in ('ImplicitCastExpr', 'ParenExpr', 'CStyleCastExpr', 'ConstantExpr'):
+            n = n['inner'][0]
+        elif n.get('kind') == 'BinaryOperator' and n.get('opcode') == ',' and _is_assert(n['inner'][0]):
+            n = n['inner'][1]          # debug-build assertion of a cast macro: no effect
+        else:
+            return n
 
 
 def is_pointer_type(n):
@@ -198,6 +209,24 @@ class CExec:
             return out
         if k == 'CallExpr':
             return self.call(n, st)
+        if k == 'ArraySubscriptExpr':
+            base = strip(n['inner'][0])
+            if base.get('kind') == 'MemberExpr' and base.get('name') == 'ob_item':
+                # PyList_GET_ITEM / PyTuple_GET_ITEM macros: ((PyListObject*)op)->ob_item[i]
+                owner = base['inner'][0]
+                is_tuple = 'Tuple' in str(owner.get('type', {}).get('qualType', '')) or 'Tuple' in str(strip(owner).get('type', {}).get('qualType', ''))
+                cast = owner
+                while cast.get('kind') in ('ImplicitCastExpr', 'ParenExpr'):
+                    cast = cast['inner'][0]
+                if cast.get('kind') == 'CStyleCastExpr':
+                    is_tuple = 'Tuple' in cast.get('type', {}).get('qualType', '')
+                out = []
+                for s, o in self.ev(owner, st):
+                    for s2, i in self.ev(n['inner'][1], s):
+                        sq = unbox_seq(o.t) if is_tuple else z3.Select(s2.heap.get('$list'), o.t)
+                        out.append((s2, vobj(sq[self.as_int(i)])))
+                return out
+            raise CUnsupported('array subscript')
         raise CUnsupported('expression %s' % k)
 
     def binop(self, op, a, b):
@@ -431,8 +460,9 @@ class CExec:
         return out
 
     def loop(self, n, st):
-        name = 'L%d' % self.loop_count
-        self.loop_count += 1
+        if not hasattr(self, 'loop_names'):
+            self.loop_names = {}
+        name = self.loop_names.setdefault(n.get('id'), 'L%d' % len(self.loop_names))
         spec = self.proc.loops.get(name)
         if spec is None:
             raise CUnsupported('loop %s has no invariant in the contract of %s' % (name, self.proc.name))
